@@ -53,13 +53,31 @@ theorem C15_loader_after_deps (inp : Input) (h : trigB inp = true) (s : Sys) (hr
   · rw [hw] at h3; cases h3
   · exact hi.rep d h3
 
+/-- **created_obey**, once-only half: every task — statically defined or registered by a creator at run time, under
+    every schedule and runner — is handed to execution at most once and gets at most one terminal report; a re-set
+    node (`"reset generator"`) does not make its task run again.  (`trigB` is needed only because the invariant is
+    proved jointly with `C15_after_trigger`.) -/
+theorem C15_created_at_most_once (inp : Input) (h : trigB inp = true) (s : Sys) (hr : Reach inp s) (t : Name) :
+    s.events.count (Ev.start t) ≤ 1 ∧ s.events.countP (Ev.reports t) ≤ 1 :=
+  ⟨(after_reach (trigWF_of_bool h) hr).cnt.cntS t, (after_reach (trigWF_of_bool h) hr).cnt.cntR t⟩
+
+/-- … and nothing is reported about a task before it was selected: a terminal report of `t` in the trace means the
+    status of `t` is finished (in particular a created task is not reported through its placeholder) -/
+theorem C15_report_means_finished (inp : Input) (h : trigB inp = true) (s : Sys) (hr : Reach inp s) (t : Name)
+    (e : Ev) (he : e ∈ s.events) (hrep : e.reports t = true) : (stOf s t).finished = true := by
+  cases hf : (stOf s t).finished with
+  | true => rfl
+  | false =>
+    have := (after_reach (trigWF_of_bool h) hr).cnt.noRep t hf e he
+    rw [this] at hrep; cases hrep
+
 /-- the dynamic dependency table of a state: task_deps of the `Task` object currently registered under a name -/
 def dynDeps (s : Sys) (t : Name) : List Name :=
   match s.tasks t with
   | some td => td.deps
   | none => []
 
-/-- **created_obey**, full statement (NOT proved here; evaluated by the monitor on every implementation trace with
+/-- **created_obey**, full statement (ordering half NOT proved here; the once-only half is `C15_created_at_most_once`; evaluated by the monitor on every implementation trace with
     the dependency table of the case): tasks registered by creators obey the C01/C02 rules — a `start` is preceded
     by a good report of every dependency, at most one start and one terminal report per task.  The base run model
     proves these for a static table (`Props/C01`, `Props/C02`); its step function cannot be instantiated with a
